@@ -477,11 +477,16 @@ def run_property(pid, mod, tier, seed, replay=None):
     ass = b.assumptions.get(pid, {"theorems": [], "rc": 1})
     theorems = ass["theorems"]
     axioms = sorted({t[1] for t in theorems if t[1] != "Closed under the global context"})
+    # an obligation resting on anything but a whitelisted standard-library axiom is NOT discharged
+    undischarged = [t[0] for t in theorems if t[1] != "Closed under the global context" and not axioms_whitelisted(t[1])]
     if proof_ok and (ass["rc"] != 0 or any(t[1] == "MISSING" for t in theorems)):
         proof_ok = False
         b.broken[pid] = {"file": f"Props/{pid}.v", "line": None, "error": "Print Assumptions output incomplete: " + ass.get("raw_tail", "")}
     n_obl = len(theorems) if theorems else count_theorems(pid)
-    n_dis = len([t for t in theorems if t[1] != "MISSING"]) if proof_ok else 0
+    if proof_ok and undischarged:
+        proof_ok = False
+        b.broken[pid] = {"file": f"Props/{pid}.v", "line": None, "error": "theorems resting on non-standard axioms (Admitted?): " + ", ".join(undischarged)}
+    n_dis = len([t for t in theorems if t[1] != "MISSING" and t[0] not in undischarged]) if (proof_ok or undischarged) else 0
 
     rng = random.Random(seed * 1000003 + int(hashlib.sha256(pid.encode()).hexdigest()[:8], 16))
     if replay:
@@ -490,7 +495,8 @@ def run_property(pid, mod, tier, seed, replay=None):
         gen_hist = {"replay": len(cases)}
     else:
         corpus = corpus_cases(pid)
-        thorough_needed = bool(b.tie["fallback"]) or bool(b.gen_compile_fallback)
+        mine = set(getattr(mod, "GEN_FILES", []))
+        thorough_needed = any(x.get("file") in mine for x in b.tie["fallback"]) or any(x.get("file", "")[:-2] in mine for x in b.gen_compile_fallback)
         gen, gen_hist = mod.gen_cases(rng, "thorough" if (tier == "thorough" or thorough_needed) else "quick")
         cases = corpus + gen
         gen_hist = dict(gen_hist, corpus=len(corpus))
@@ -584,6 +590,14 @@ def run_property(pid, mod, tier, seed, replay=None):
     write_evidence(pid, ev)
     log(f"[{pid}] tier={tier} seed={seed} cases={len(results)} distinct_nontrivial={len(sigs)} disagree={len(disagree)} oracle_viol={len(viol)} proof_ok={proof_ok} obligations={n_dis}/{n_obl} wall={ev['wall_s']}s")
     return exit_code
+
+
+STD_AXIOMS = set()  # standard-library axioms the development is allowed to rest on (none needed so far)
+
+
+def axioms_whitelisted(block):
+    names = re.findall(r"^(\S+)\s*:", block, re.M)
+    return bool(names) and all(n in STD_AXIOMS for n in names)
 
 
 def count_theorems(pid):
